@@ -44,10 +44,16 @@ class Built:
 def build(spec) -> Built:
     g = Built(spec)
     attrs = spec.get("attrs") or {}
+    uids = spec.get("uids") or {}
     for i, cname in enumerate(spec["verts"]):
         a = {"idx": i}
         a.update(attrs.get(str(i), {}))
-        g.verts.append(zoo.VERTEX_CLASSES[cname](attributes=a))
+        if cname == "EqVertex":
+            a.setdefault("key", "twin")
+        kw = {"attributes": a}
+        if str(i) in uids:
+            kw["uid"] = uids[str(i)]  # uids are user-assignable and nothing makes them unique
+        g.verts.append(zoo.VERTEX_CLASSES[cname](**kw))
     for k, ed in enumerate(spec["edges"]):
         cname, i, j = ed[0], ed[1], ed[2]
         tag = ed[3] if len(ed) > 3 else k
@@ -64,7 +70,7 @@ def build(spec) -> Built:
 
 VCLS_PLAIN = ["Vertex"]
 VCLS_MIX = ["Vertex", "Vertex", "VSub", "VSubSub", "FalsyVertex", "EmptyVertex", "Universe", "VBoth", "VFancy"]
-ECLS_DU = ["DirectedEdge", "UnDirectedEdge", "DSub", "DSubSub", "USub", "MixEdge", "FalsyEdge"]
+ECLS_DU = ["DirectedEdge", "UnDirectedEdge", "DSub", "DSubSub", "USub", "MixEdge", "FalsyEdge", "RenamedEdge", "PosOnlyEdge"]
 ECLS_ALL = ECLS_DU + ["OtherLink", "OtherLink2", "TwoEndedLink"]
 
 
@@ -118,6 +124,9 @@ def rand_spec(rng: random.Random, nmax=6, mmax=12, vcls=VCLS_MIX, ecls=ECLS_ALL,
     spec = {"verts": verts, "edges": edges, "uni": uni}
     if uni is not None and rng.random() < 0.25:
         spec["uni_cls"] = "FalsyUniverse"
+    if rng.random() < 0.25:
+        # distinct vertices sharing a uid (two loads of one pickle, record ids reused as uids, ...)
+        spec["uids"] = {str(i): rng.randint(1, 2) for i in range(n) if rng.random() < 0.7}
     return spec
 
 
